@@ -109,6 +109,9 @@ C12Failing ==
   ELSE IF ~Rec.parse_ok THEN {"OutputIsPython"}
   ELSE Bad(Rec.module.root, {}) \cup (IF FuncNamesAreHeads THEN {} ELSE {"FuncNamesAreHeads"})
        \cup (IF Rec.audit = <<>> THEN {} ELSE {"NoForeignEffects"})
+       \* the output written to a file and loaded through load_script_from_file is the same program
+       \* (the bytes of the file are the text: no declaration inside a comment may change how it is read)
+       \cup (IF Rec.file_ok THEN {} ELSE {"FileRouteIsTheSameProgram"})
 
 ----------------------------------------------------------------------------
 Init == tid \in 2..Len(Recs)          \* record 1 carries the name tables
